@@ -63,23 +63,41 @@ JudgePoss(ev) ==
       ELSE Pass(<<>>))
 
 ArgVals(ev, vals) == [i \in 1..Len(ev.args) |-> vals[ev.args[i]]]
+\* IntNegative only promises "nonzero iff negative", so it is judged by truth value.
+GadgetOk(ev, vals, v) ==
+    IF ev.g = "IntNegative" THEN IsZero(v) = ~IsNeg(vals[ev.args[1]], ev.w)
+    ELSE v = Ref(ev.g, ev.w, ArgVals(ev, vals), ev.bit)
+GadgetExp(ev, vals) ==
+    IF ev.g = "IntNegative" THEN [nonzero |-> IsNeg(vals[ev.args[1]], ev.w)]
+    ELSE Ref(ev.g, ev.w, ArgVals(ev, vals), ev.bit)
 JudgeGadget(ev) ==
     IF W(ev, ev.out) # RefWidth(ev.g, ev.w) THEN Fail("width", RefWidth(ev.g, ev.w), W(ev, ev.out), <<>>)
     ELSE IF W(ev, ev.out2) # RefWidth(ev.g, ev.w) THEN Fail("width", RefWidth(ev.g, ev.w), W(ev, ev.out2), <<>>)
     ELSE Let1(FirstBad(ev, 1, LAMBDA vals, env :
-                 Let1(Ref(ev.g, ev.w, ArgVals(ev, vals), ev.bit), LAMBDA r :
-                      vals[ev.out] = r /\ vals[ev.out2] = r)), LAMBDA k :
-      IF k > 0 THEN ValueMismatch(ev, k, LAMBDA vals : Ref(ev.g, ev.w, ArgVals(ev, vals), ev.bit),
+                 GadgetOk(ev, vals, vals[ev.out]) /\ GadgetOk(ev, vals, vals[ev.out2])), LAMBDA k :
+      IF k > 0 THEN ValueMismatch(ev, k, LAMBDA vals : GadgetExp(ev, vals),
                                   LAMBDA vals : <<vals[ev.out], vals[ev.out2]>>)
       ELSE IF (\A i \in 1..Len(ev.args) : IsConst(ev.nodes, ev.args[i])) /\ ~IsConst(ev.nodes, ev.out2)
         THEN Fail("notconst", "constant", ev.nodes[ev.out2].k, <<>>)
       ELSE Pass(<<>>))
+
+\* one operator on constants, first operand ev.x, second operand every byte value
+TableExp(ev, y) == IF ev.o = 0
+                   THEN (IF Ltu(ev.x, <<y>>, ev.w) THEN Adapt(<<1>>, ev.w) ELSE Adapt(<<2>>, ev.w))
+                   ELSE BinOp(ev.o, ev.x, <<y>>, ev.w)
+JudgeTable(ev) ==
+    IF Len(ev.res) # 256 THEN Fail("table", 256, Len(ev.res), <<>>)
+    ELSE Let1({y \in 0..255 : TableExp(ev, y) # ev.res[y + 1]}, LAMBDA bads :
+         IF bads = {} THEN Pass(<<>>)
+         ELSE Let1(CHOOSE y \in bads : \A z \in bads : y <= z, LAMBDA y :
+                   Fail("value", [y |-> y, v |-> TableExp(ev, y)], [v |-> ev.res[y + 1]], <<>>)))
 
 Judge(ev, st) ==
     IF ev.panic # "" THEN Fail("panic", "no panic", ev.panic, <<>>)
     ELSE IF ev.inmut THEN Fail("mutated", "input unchanged", "input changed", <<>>)
     ELSE IF ~WellFormed(ev.nodes) THEN Fail("illformed", "well-formed expressions", "ill-formed", <<>>)
     ELSE CASE ev.op = "fold"     -> JudgeFold(ev)
+           [] ev.op = "optable"  -> JudgeTable(ev)
            [] ev.op = "setwidth" -> JudgeSetWidth(ev)
            [] ev.op = "purge"    -> JudgePurge(ev)
            [] ev.op = "poss"     -> JudgePoss(ev)
